@@ -15,9 +15,10 @@ import (
 )
 
 func C15(c *Ctx) {
-	c.R.Explanation = "Decides structural necessary conditions of 'reported changes suffice' for package sio: (R1) report and apply are paired — in RunMachine every path from the assignment of the live machine's state to a return also records that state in the change cache (and vice versa), SetMachine applies a given state to an existing machine as well as recording it, DeleteMachine both removes the machine and records the deletion, and one crew operation performs its updates before its deletions (a deletion flag is never cleared by a later update within the same report); (R2) every persisted field of Changed is propagated by GetChanged, a reported deletion also forgets the last-reported record used for duplicate suppression, the reference consumer applies every persisted field, and the boot path hands every persisted field of a stored machine to SetMachine. (R3) anywhere in package sio, an assignment of the State or SpecSource of a machine that can be a member of Crew.Machines is covered, under the facts holding at the assignment, by a record of the same field in the change cache in the same function (before it on every path, or after it on every path), except the initialisation of an absent (nil) field. (R4) every successful return of RunMachine returns the result of its core Walk call (no live-only shortcut can answer for the machine), and that walk starts from the machine's recorded State with the machine's current spec. Equality of a rebuilt crew's behaviour is not decided."
+	c.R.Explanation = "Decides structural necessary conditions of 'reported changes suffice' for package sio: (R1) report and apply are paired — in RunMachine every path from the assignment of the live machine's state to a return also records that state in the change cache (and vice versa), SetMachine applies a given state to an existing machine as well as recording it, DeleteMachine both removes the machine and records the deletion, and one crew operation performs its updates before its deletions (a deletion flag is never cleared by a later update within the same report); (R2) every persisted field of Changed is propagated by GetChanged, a reported deletion also forgets the last-reported record used for duplicate suppression, the reference consumer applies every persisted field, and the boot path hands every persisted field of a stored machine to SetMachine. (R3) anywhere in package sio, an assignment of the State or SpecSource of a machine that can be a member of Crew.Machines is covered, under the facts holding at the assignment, by a record of the same field in the change cache in the same function (before it on every path, or after it on every path), except the initialisation of an absent (nil) field. (R4) every successful return of RunMachine returns the result of its core Walk call (no live-only shortcut can answer for the machine), and that walk starts from the machine's recorded State with the machine's current spec. (R5) crew.SpecSource.Copy — through which the reference consumer stores a reported spec source — gives every persisted field of the copy the receiver's own field value (a pointer may be shared, or copied by a function that is itself faithful in this sense), so what a rebuilt crew loads is what was reported. Equality of a rebuilt crew's behaviour is not decided."
 	c.R.Rule("C15-R1", "E3", "report and apply are paired", 5)
 	c.R.Rule("C15-R2", "E6", "field exhaustiveness of the change report and its consumers", 6)
+	c.R.Rule("C15-R5", "E6", "the copy the store keeps of a reported spec source is faithful", 1)
 	c.R.Rule("C15-R4", "E3", "a crew's reaction is a walk from the recorded state: RunMachine returns only what Walk returned, walked from Machine.State", 2)
 	c.R.Rule("C15-R3", "E3", "who may change a live machine: every assignment of a crew machine's persisted fields anywhere in package sio is covered by a change record", 3)
 	runM := c.fn("sio", "Crew", "RunMachine")
@@ -130,6 +131,42 @@ func C15(c *Ctx) {
 		}
 	})
 	c.R.Check(specApplied, "C15-R1", "SetMachine: spec is installed", c.P.Pos(setM.Pos()), "Machine.Specter assigned", "a reported spec source is not installed")
+	// ... and what is installed is resolved from the source given to this call, never taken from something the crew kept
+	{
+		scope := []*ssa.Function{setM}
+		for _, f := range pkgClosure(setM) {
+			if f != setM && prog.PkgOf(f) == "sio" {
+				scope = append(scope, f)
+			}
+		}
+		var bad []string
+		n := 0
+		for _, f := range scope {
+			ssau.Instrs(f, func(in ssa.Instruction) {
+				st, ok := in.(*ssa.Store)
+				if !ok || !ssau.IsField(st.Addr, prog.Abs("crew"), "Machine", "Specter") {
+					return
+				}
+				n++
+				for _, d := range deepDefs(st.Val, scope) {
+					switch x := d.(type) {
+					case *ssa.Extract:
+						if _, isLk := x.Tuple.(*ssa.Lookup); isLk {
+							bad = append(bad, "a map lookup ("+c.pos(x)+")")
+						}
+					case *ssa.Lookup:
+						bad = append(bad, "a map lookup ("+c.pos(x)+")")
+					case *ssa.UnOp:
+						if fa, isFA := x.X.(*ssa.FieldAddr); isFA && x.Op == token.MUL && !localFresh(fa.X) {
+							bad = append(bad, "a stored field ("+c.pos(x)+")")
+						}
+					}
+				}
+			})
+		}
+		sort.Strings(bad)
+		c.R.Check(len(bad) == 0 && n > 0, "C15-R1", "SetMachine: the installed spec is resolved from the given source", c.P.Pos(setM.Pos()), fmt.Sprintf("%d assignments of Machine.Specter, none from a container that outlives the call", n), "the compiled spec installed for a machine can come from "+strings.Join(bad, ", ")+": the live machine can run a spec that differs from the reported (and stored) source")
+	}
 	// DeleteMachine
 	delApply, delReport := false, false
 	ssau.Instrs(delM, func(in ssa.Instruction) {
@@ -162,6 +199,7 @@ func C15(c *Ctx) {
 	okOrder := setCall != nil && delCall != nil && flow.Reachable(setCall.Block(), delCall.Block(), nil) && !flow.Reachable(delCall.Block(), setCall.Block(), nil)
 	c.R.Check(okOrder, "C15-R1", "DoOp: updates are applied before deletions", c.P.Pos(doOp.Pos()), "no path from a deletion to an update within one operation", "within one crew operation a deletion can precede an update of the same machine: the deletion flag then hides the update from the report although the machine is live")
 	c15Writers(c, change)
+	c15Copies(c)
 	c15Walks(c, runM)
 	// ---- R2 exhaustiveness
 	sioPkg := c.P.ByPath[prog.Abs("sio")]
@@ -472,4 +510,100 @@ func c15Walks(c *Ctx, runM *ssa.Function) {
 		}
 		c.R.Check(okState, "C15-R4", fmt.Sprintf("RunMachine:Walk#%d starts from Machine.State", i+1), c.pos(cl), "state operand is the machine's State field", "the walk does not start from the machine's recorded state")
 	}
+}
+
+// c15Copies: C15-R5.
+func c15Copies(c *Ctx) {
+	cp := c.fn("crew", "SpecSource", "Copy")
+	if cp == nil {
+		return
+	}
+	c.R.Fn(fname(cp))
+	ok, why := faithfulCopy(c, cp, 0)
+	c.R.Check(ok, "C15-R5", "SpecSource.Copy: every persisted field is carried over unchanged", c.P.Pos(cp.Pos()), "each persisted field of the result is the receiver's field (or a faithful copy of it)", why)
+}
+
+// faithfulCopy: f is a method `func (x *T) ...() *T` whose result is a fresh T
+// in which every persisted (not json:"-", exported) field is stored from the
+// receiver's same field, or from a faithful copy of it.
+func faithfulCopy(c *Ctx, f *ssa.Function, depth int) (bool, string) {
+	if f == nil || f.Blocks == nil || len(f.Params) == 0 || depth > 1 {
+		return false, "not a copy method"
+	}
+	recv := f.Params[0]
+	pt, isPtr := recv.Type().Underlying().(*types.Pointer)
+	if !isPtr {
+		return false, "receiver is not a pointer"
+	}
+	st, isSt := pt.Elem().Underlying().(*types.Struct)
+	if !isSt {
+		return false, "receiver is not a struct"
+	}
+	tname := types.TypeString(pt.Elem(), func(p *types.Package) string { return p.Name() })
+	// the result objects
+	var results []*ssa.Alloc
+	for _, b := range f.Blocks {
+		ret, isRet := b.Instrs[len(b.Instrs)-1].(*ssa.Return)
+		if !isRet || len(ret.Results) != 1 {
+			continue
+		}
+		for _, d := range phiDefs(ret.Results[0], nil, map[ssa.Value]bool{}) {
+			if ssau.IsNilConst(d) {
+				continue
+			}
+			al, isAl := d.(*ssa.Alloc)
+			if !isAl {
+				return false, fmt.Sprintf("%s.%s can return %s, which is not a value built here", tname, f.Name(), d.String())
+			}
+			results = append(results, al)
+		}
+	}
+	if len(results) == 0 {
+		return false, tname + "." + f.Name() + " builds no result"
+	}
+	for _, al := range results {
+		for i := 0; i < st.NumFields(); i++ {
+			fld := st.Field(i)
+			if !fld.Exported() || strings.Contains(st.Tag(i), `json:"-"`) {
+				continue
+			}
+			stored := false
+			for _, r := range ssau.Referrers(al) {
+				fa, isFA := r.(*ssa.FieldAddr)
+				if !isFA || fa.Field != i {
+					continue
+				}
+				for _, r2 := range ssau.Referrers(fa) {
+					sto, isS := r2.(*ssa.Store)
+					if !isS || sto.Addr != ssa.Value(fa) {
+						continue
+					}
+					stored = true
+					// the value: the receiver's same field, or a faithful copy of it
+					v := sto.Val
+					if ld, isLd := v.(*ssa.UnOp); isLd && ld.Op == token.MUL {
+						if fa2, is2 := ld.X.(*ssa.FieldAddr); is2 && fa2.Field == i && fa2.X == ssa.Value(recv) {
+							continue
+						}
+					}
+					if cl, isC := v.(*ssa.Call); isC && cl.Common().StaticCallee() != nil && len(cl.Common().Args) > 0 {
+						if ld, isLd := cl.Common().Args[0].(*ssa.UnOp); isLd {
+							if fa2, is2 := ld.X.(*ssa.FieldAddr); is2 && fa2.Field == i && fa2.X == ssa.Value(recv) {
+								if ok2, why2 := faithfulCopy(c, cl.Common().StaticCallee(), depth+1); ok2 {
+									continue
+								} else {
+									return false, fmt.Sprintf("%s.%s copies field %s with %s, which is not a faithful copy: %s", tname, f.Name(), fld.Name(), cl.Common().StaticCallee().Name(), why2)
+								}
+							}
+						}
+					}
+					return false, fmt.Sprintf("%s.%s gives field %s a value that is not the receiver's %s (%s)", tname, f.Name(), fld.Name(), fld.Name(), c.pos(sto))
+				}
+			}
+			if !stored {
+				return false, fmt.Sprintf("%s.%s does not carry over the persisted field %s", tname, f.Name(), fld.Name())
+			}
+		}
+	}
+	return true, ""
 }
